@@ -32,6 +32,13 @@ def jobs(tier, seed):
     # fail commands with clean-up siblings under pause / cancel at every position
     js += batches("ctl_sweep", scale(tier, 28, 600), scale(tier, 2, 20), gen="dag", gseed=seed + 10, p_fail=0.35,
                   P=dict(p_fail_cmd=0.45, nmax=5, p_items=0.05, p_retry=0.05), modes=["cancel", "pause"], name="sweep-fail-commands")
+    # pause, resume before anything reports, pause again (the workflow is `resuming` with actions in flight)
+    js += batches("ctl_sweep", scale(tier, 30, 800), scale(tier, 3, 25), gen="mix", p_loop=0.2, gseed=seed + 14,
+                  P=dict(p_intjoin=0.3, nmax=5), modes=["pause_resume_pause"], name="pause-resume-pause")
+    # actions acknowledged with mixed statuses (running / scheduled / requested / delayed)
+    js += batches("conduct", scale(tier, 100, 2000), scale(tier, 20, 100), gen="mix", gseed=seed + 15, P=dict(p_intjoin=0.3), scheds=2,
+                  ack_chain="mixed", ctl=dict(req=0.1, max_req=3, reqs=["pausing", "paused", "resuming", "running", "canceling"]),
+                  name="mixed-acknowledgements")
     # actions that wait at the provider (pending / paused tasks): paused only with nothing in flight, pausing only with something
     js += batches("parked", scale(tier, 100, 2500), scale(tier, 10, 100), gen="dag", gseed=seed + 12, p_fail=0.15,
                   P=dict(p_intjoin=0.3, p_items=0.35, p_retry=0.1, p_expr_conc=0.2, xs_max=3, nmax=5), scheds=2, name="pending-and-paused-tasks")
